@@ -31,6 +31,9 @@ func (c *Collector) SetDelay(ev string, d time.Duration) {
 	c.delays.Store(ev, d)
 }
 
+// SetDelayFor is SetDelay restricted to the events of one node instance (label "id@epoch").
+func (c *Collector) SetDelayFor(ev, node string, d time.Duration) { c.SetDelay(ev+"@"+node, d) }
+
 // Install creates a collector and installs it as the verifhook sink.
 func Install() *Collector {
 	c := &Collector{sessStart: map[string]int{}}
@@ -48,6 +51,11 @@ func Install() *Collector {
 		if ev, ok := r["ev"].(string); ok {
 			if d, ok := c.delays.Load(ev); ok {
 				time.Sleep(d.(time.Duration))
+			}
+			if n, ok := r["n"].(string); ok {
+				if d, ok := c.delays.Load(ev + "@" + n); ok {
+					time.Sleep(d.(time.Duration))
+				}
 			}
 		}
 	})
